@@ -304,6 +304,10 @@ impl BitFont {
         }
         let magic16 = u16::from_le_bytes(data[0..2].try_into().unwrap());
         if magic16 == BitFont::PSF1_MAGIC {
+            if data[3] == 0 {
+                // a character size of 0 is not a font (load_psf2 rejects `charsize <= 0` as well)
+                return Err(FontError::LengthMismatch(data.len(), 4).into());
+            }
             return Ok(BitFont::load_psf1(font_name, data));
         }
 
